@@ -146,6 +146,8 @@ impl<T> HybridMutex<T> {
 
   #[inline]
   pub async fn lock_async(&self) -> MutexGuard<'_, T> {
+    #[cfg(all(excsn_fibre_verif, not(loom)))]
+    super::verif_hook::emit(0, self as *const Self as *const () as usize, 0);
     if self.try_acquire() {
       return MutexGuard { lock: self };
     }
